@@ -58,23 +58,29 @@ fn unit(r: &mut Rng, units: &[&str]) -> String {
     }
 }
 
-fn quantity(r: &mut Rng, units: &[&str]) -> String {
+fn quantity(r: &mut Rng, units: &[&str], invalid: bool) -> String {
     match r.below(10) {
         0 => "{}".into(),
         1 => format!("{{{}}}", number(r)),
         2 => format!("{{{} {}}}", number(r), unit(r, units)),
         3 => format!("{{={}%{}}}", number(r), unit(r, units)),
-        4 => format!("{{{}%}}", number(r)),
-        5 => format!("{{%{}}}", unit(r, units)),
+        4 if invalid => format!("{{{}%}}", number(r)),
+        5 if invalid => format!("{{%{}}}", unit(r, units)),
         _ => format!("{{{}%{}}}", number(r), unit(r, units)),
     }
 }
 
-fn ingredient(r: &mut Rng, seen: &mut Vec<String>) -> String {
+fn ingredient(r: &mut Rng, seen: &mut Vec<String>, invalid: bool) -> String {
     let name = if !seen.is_empty() && r.chance(1, 2) {
         r.pick(seen).clone()
     } else {
-        let n = r.pick(NAMES).to_string();
+        // a fifth of the new names are (nearly) unique in the process: tables of names that
+        // grow, fill up, spill or wrap need a supply of distinct keys
+        let n = if r.chance(1, 5) {
+            format!("{} no {}", r.pick_str(NAMES), r.below(1_000_000))
+        } else {
+            r.pick_str(NAMES).to_string()
+        };
         seen.push(n.clone());
         n
     };
@@ -84,16 +90,17 @@ fn ingredient(r: &mut Rng, seen: &mut Vec<String>) -> String {
         2 => "-",
         3 => "+",
         4 => "@",
-        5 => "&(~1)",
-        6 => "&(1)",
-        7 => "&(=~1)",
+        5 if invalid => "&(~1)",
+        6 if invalid => "&(1)",
+        7 if invalid => "&(=~1)",
         8 => "&?",
-        9 => "&(x)",
+        9 if invalid => "&(x)",
+        10 | 11 => "&",
         _ => "",
     };
     let alias = if r.chance(1, 8) { "|alias" } else { "" };
     let q = if name.contains(' ') || r.chance(3, 4) {
-        quantity(r, UNITS)
+        quantity(r, UNITS, invalid)
     } else {
         String::new()
     };
@@ -101,7 +108,7 @@ fn ingredient(r: &mut Rng, seen: &mut Vec<String>) -> String {
     format!("@{mods}{name}{alias}{q}{note}")
 }
 
-fn step(r: &mut Rng, seen: &mut Vec<String>) -> String {
+fn step(r: &mut Rng, seen: &mut Vec<String>, invalid: bool) -> String {
     let mut s = String::new();
     let n = r.range(1, 8);
     for i in 0..n {
@@ -109,7 +116,7 @@ fn step(r: &mut Rng, seen: &mut Vec<String>) -> String {
             s.push(' ');
         }
         match r.below(12) {
-            0..=2 => s.push_str(&ingredient(r, seen)),
+            0..=2 => s.push_str(&ingredient(r, seen, invalid)),
             3 => {
                 s.push('#');
                 let c = r.pick(COOKWARE);
@@ -127,8 +134,13 @@ fn step(r: &mut Rng, seen: &mut Vec<String>) -> String {
                 if r.chance(1, 3) {
                     s.push_str("rest");
                 }
-                s.push_str(&quantity(r, TIME_UNITS));
+                if invalid {
+                    s.push_str(&quantity(r, TIME_UNITS, true));
+                } else {
+                    s.push_str(&format!("{{{}%{}}}", r.range(1, 90), r.pick_str(&["min", "minutes", "h", "s", "hour"])));
+                }
             }
+            5 if !invalid => s.push_str(r.pick_str(WORDS)),
             5 => s.push_str(match r.below(8) {
                 0 => "@{}",
                 1 => "~{}",
@@ -199,6 +211,9 @@ fn frontmatter(r: &mut Rng) -> String {
 pub fn recipe(r: &mut Rng) -> String {
     let mut out = String::new();
     let mut seen = Vec::new();
+    // a hard parser error makes the analysis bail out, so only a third of the inputs may
+    // contain malformed constructs at all
+    let invalid = r.chance(1, 3);
     if r.chance(1, 4) {
         out.push_str(&frontmatter(r));
     }
@@ -224,7 +239,7 @@ pub fn recipe(r: &mut Rng) -> String {
             }
             5 if r.chance(1, 2) => out.push_str("-- a comment line\n"),
             _ => {
-                out.push_str(&step(r, &mut seen));
+                out.push_str(&step(r, &mut seen, invalid));
                 out.push('\n');
             }
         }
@@ -257,7 +272,7 @@ pub fn recipe_large(r: &mut Rng) -> String {
         if i % 37 == 36 {
             out.push_str("== Part ==\n\n");
         }
-        out.push_str(&step(r, &mut seen));
+        out.push_str(&step(r, &mut seen, false));
         out.push_str("\n\n");
         if seen.len() > 40 {
             seen.truncate(20);
